@@ -13,6 +13,7 @@ import (
 	"reduction.dev/reduction/proto/jobpb"
 	"reduction.dev/reduction/proto/snapshotpb"
 	"reduction.dev/reduction/storage/locations"
+	"reduction.dev/reduction/util/vhook"
 
 	"google.golang.org/protobuf/proto"
 )
@@ -214,6 +215,7 @@ func (s *Store) finishSnapshot(snap *jobSnapshot) {
 				}
 			}
 		}
+		vhook.At("snapshots.publication-ended", VerifPublicationEnded{ID: snap.id, Savepoint: snap.isSavepoint, Err: err})
 		if err != nil {
 			s.errChan <- err
 			return
